@@ -1,10 +1,23 @@
 #!/bin/sh
-# Offline warm-up: checks the toolchain and fills the Go build cache so that the first quick check is fast.
+# Offline warm-up: checks the toolchain and fills the Go build cache (plain, race, wasm, REST server)
+# so that the first quick checks are fast. Everything is rebuilt from /repo's working tree by ./check anyway.
 set -e
 cd "$(dirname "$0")"
-export GOFLAGS=-mod=mod GOPROXY=off GOWORK=off
-unset GOTOOLCHAIN GOSUMDB || true
+REPO=${VERIF_REPO:-/repo}
 mkdir -p .work/setup
-( cd h && go version && go test -c -vet=off -tags verif -o ../.work/setup/h.test . )
+(
+  export GOFLAGS=-mod=mod GOPROXY=off GOWORK=off
+  unset GOTOOLCHAIN GOSUMDB || true
+  cd h && go version
+  go test -c -vet=off -tags verif -o ../.work/setup/h.test .
+  go test -c -vet=off -race -tags verif -o ../.work/setup/h.race.test .
+)
+(
+  export GOPROXY=off
+  unset GOFLAGS GOWORK GOTOOLCHAIN GOSUMDB || true
+  cd "$REPO/internal/app" && go build -o /verif/.work/setup/server ./cmd
+  cd "$REPO" && GOOS=js GOARCH=wasm go build -o /verif/.work/setup/otp.wasm ./wasm
+)
+node --version >/dev/null
 rm -rf .work/setup
 echo "setup ok"
